@@ -94,7 +94,8 @@ extern "C" void h_fmt_char(void) {
 // formatted DOUB / REAL arrays: the mantissa/exponent surgery of make_doub_string_ecl / make_real_string_ecl around snprintf, on concrete
 // values that reach every branch (both signs, two- and three-digit exponents, exponent sign, zero); read back to the printed precision
 extern "C" void h_fmt_doub(void) {
-    static const double vals[] = { 0.0, 1.0, -1.0, 0.5, -3.25, 123456.789, -7.25e-200, 7.25e-200, -1.5e150, 2.5e150, 9.999999999999e99, -9.999999999999e99, 1e-99, -1e-99, 1e100, -1e-100, 4.25e-5, -6.5e7 };
+    static const double vals[] = { 0.0, 1.0, -1.0, 0.5, -3.25, 123456.789, -7.25e-200, 7.25e-200, -1.5e150, 2.5e150, 9.999999999999e99, -9.999999999999e99, 1e-99, -1e-99, 1e100, -1e-100, 4.25e-5, -6.5e7,
+                                  2.2250738585072014e-308 /* DBL_MIN: prints as a number just below it */, 4.9406564584124654e-324, 1.7976931348623157e308 };
     const long n = sizeof(vals) / sizeof(vals[0]);
     std::vector<double> data(vals, vals + n);
     EclOutput* out = make_writer(); out->write(std::string("DOUBARR"), data); out->flushStream();
